@@ -840,10 +840,25 @@ class Gen:
         plain = not grouped and not q.distinct and not any(p[0][0] == "star" for p in q.projs)
         allcols = [("col", s2.alias, c2[0], c2[1], s2.alias) for s2 in scope for c2 in s2.cols]
         if top and plain and f["qualify"] and self.chance(0.2):
-            part = [c for c in [self.colref(scope, INT)] if c is not None]
-            worder = [(c, self.chance(0.3), self.pick(["first", "last"])) for c in allcols]
-            rn = ("win", ("fn", "ROW_NUMBER", [], INT), part, worder, None)
-            q.qualify = ("bin", self.pick(["<=", "=", "<"]), rn, ("lit", self.pick([1, 2]), INT))
+            def wpred():
+                part = [c for c in [self.colref(scope, INT)] if c is not None and self.chance(0.8)]
+                worder = [(c, self.chance(0.3), self.pick(["first", "last"])) for c in allcols]
+                fn = self.pick(["ROW_NUMBER", "ROW_NUMBER", "RANK", "DENSE_RANK"])
+                if self.chance(0.25):
+                    arg = self.colref(scope, INT) or ("lit", 1, INT)
+                    w = ("win", ("agg", self.pick(["SUM", "COUNT", "MAX"]), arg, False), part, [], None)
+                    return ("bin", self.pick([">", "<=", "="]), w, ("lit", self.pick([0, 1, 2, 3]), INT))
+                w = ("win", ("fn", fn, [], INT), part, worder, None)
+                return ("bin", self.pick(["<=", "=", "<", ">"]), w, ("lit", self.pick([1, 2]), INT))
+
+            qp = wpred()
+            if self.chance(0.45):
+                qp = ("bin", self.pick(["AND", "OR"]), qp, wpred())
+                self.tags.add("win:qualify-two-windows")
+            if self.chance(0.2) and f.get("qualify_plain_pred"):
+                # listed finding (C02 probe): a plain predicate on qualified columns inside QUALIFY
+                qp = ("bin", "AND", qp, self.cmp_expr(scope, 1))
+            q.qualify = qp
             self.tags.add("win:qualify")
         elif top and plain and f["distinct_on"] and self.chance(0.2) and not any(
                 isinstance(p[0], tuple) and p[0][0] in ("win", "scalar") for p in q.projs):
